@@ -537,6 +537,13 @@ def kwargs_filter(tree, init):
     (`visitedNamed`), the names of the signature (`signatureNames`: they include the names of the `*` / `**` parameters), or absent"""
     prop = find_func(tree, 'not_yet_check_kwargs', cls='FunctionCall')
     body = [s for s in prop.body if not (isinstance(s, ast.Expr) and isinstance(s.value, ast.Constant))]
+    # since 8cfcc6f: an optional first statement `receiver = 'self' if self.func.is_instance_method else None` and the extra conjunct
+    # `k != receiver` in the filter (the receiver passed by keyword is no value for **kwargs)
+    receiver_alias = None
+    if (len(body) == 2 and isinstance(body[0], ast.Assign) and len(body[0].targets) == 1 and isinstance(body[0].targets[0], ast.Name)
+            and canon(body[0].value) in ("'self' if self.func.is_instance_method else None", "'self' if self._func.is_instance_method else None")):
+        receiver_alias = body[0].targets[0].id
+        body = body[1:]
     if not (len(body) == 1 and isinstance(body[0], ast.Return) and isinstance(body[0].value, ast.DictComp)):
         raise Skip('FunctionCall.not_yet_check_kwargs: not a single dict comprehension')
     dc = body[0].value
@@ -553,7 +560,13 @@ def kwargs_filter(tree, init):
         return 'everyKeyword'
     if len(g[0].ifs) != 1:
         raise Skip('FunctionCall.not_yet_check_kwargs: several filters')
-    neg, t = strip_not(g[0].ifs[0])
+    cond = g[0].ifs[0]
+    if receiver_alias is not None and isinstance(cond, ast.BoolOp) and isinstance(cond.op, ast.And) and len(cond.values) == 2:
+        extra = [v for v in cond.values if canon(v) in (f'{canon(dc.key)} != {receiver_alias}', f'{receiver_alias} != {canon(dc.key)}')]
+        rest = [v for v in cond.values if v not in extra]
+        if len(extra) == 1 and len(rest) == 1:
+            cond = rest[0]
+    neg, t = strip_not(cond)
     if not (neg and isinstance(t, ast.Compare) and len(t.ops) == 1 and isinstance(t.ops[0], ast.In) and canon(t.left) == canon(dc.key)):
         raise Skip('FunctionCall.not_yet_check_kwargs: unknown filter')
     names = canon(t.comparators[0])
